@@ -199,7 +199,28 @@ def certificate_check(rec, ret_value, mode):
     ids_c = [id(o) for k, o in sent if k == "c"]
     twice = len(ids_c) != len(set(ids_c))
     info["constraint_object_sent_twice"] = twice
+    twice_in_span = False
     if twice and not open_in_span and _grade(max(dG, dF), scale, fam) == "violated":
+        # what is left must be a combination of the duplicated constraints themselves (two multipliers in the solver, one
+        # exposed): anything else left in the identity of such a model is judged as usual
+        seen_, dup_ = set(), []
+        for k_, o_ in sent:
+            if k_ == "c":
+                if id(o_) in seen_ and not any(o_ is d_ for d_ in dup_):
+                    dup_.append(o_)
+                seen_.add(id(o_))
+        basis = []
+        for o_ in dup_:
+            A_, a_, _c = canon.expr_num(o_.expression, idx)
+            basis.append(np.concatenate([((A_ + A_.T) / 2.0).ravel(), a_]))
+        Bm = np.array(basis).T
+        r = np.concatenate([((RA + RA.T) / 2.0).ravel(), Ra])
+        coef, *_ = np.linalg.lstsq(Bm, r, rcond=None)
+        rem = r - Bm @ coef
+        sc2 = scale * (1.0 + float(np.max(np.abs(coef), initial=0.0)))
+        twice_in_span = _grade(float(np.max(np.abs(rem), initial=0.0)), sc2, fam) != "violated"
+        info["sent_twice_in_span"] = twice_in_span
+    if twice_in_span:
         findings.append({"key": "identity_open_constraint_object_sent_twice",
                          "what": "the same Constraint object was registered twice: it is sent twice and the solver holds two multipliers, "
                                  "the object exposes one; the identity is open by %.3e" % max(dG, dF),
